@@ -485,7 +485,10 @@ SNAP* SessionKeys::ccmp_decrypt_unicast(const Dot11Data& dot11, RawPDU& raw) con
     uint8_t AAD[32] = {0};
     AAD[0] = 0;
     AAD[1] = 22 + 6 * int(dot11.from_ds() && dot11.to_ds());
-    if (dot11.subtype() == Dot11::QOS_DATA_DATA)  {
+    // Every QoS data subtype carries a QoS control field, not just QoS Data
+    const bool has_qos = (dot11.subtype() & 0x08) != 0 && 
+                         dot11.pdu_type() == PDU::DOT11_QOS_DATA;
+    if (has_qos)  {
         AAD[1] += 2;
     }
     AAD[2] = dot11.protocol() | (dot11.type() << 2) | ((dot11.subtype() << 4) & 0x80);
@@ -515,7 +518,7 @@ SNAP* SessionKeys::ccmp_decrypt_unicast(const Dot11Data& dot11, RawPDU& raw) con
     counter[14] = (total_sz >> 8) & 0xff;
     counter[15] = total_sz & 0xff;
     
-    if (dot11.subtype() == Dot11::QOS_DATA_DATA) {
+    if (has_qos) {
         const uint32_t offset = (dot11.from_ds() && dot11.to_ds()) ? 30 : 24;
         AAD[offset] = static_cast<const Dot11QoSData&>(dot11).qos_control() & 0x0f;
         counter[1] = AAD[offset];
